@@ -343,6 +343,22 @@ func c17Pipeline(t *testing.T, rec *ev.Rec) {
 		var rates []uint64
 		lastZero := map[uint64]bool{}
 		for round := 0; round < rounds && !panicked; round++ {
+			// governance re-tunes the feed now and then (same oracle script and channel, another window size): from
+			// here on the statement holds for the new N, every window starts empty and the request cycle restarts
+			if round > 5 && rnd.Intn(12) == 0 {
+				n2 := []int{1, 2, 3, 5, 4}[rnd.Intn(5)]
+				if n2 != n {
+					must(t, c.App.BandoracleKeeper.AddFetchPriceRecords(c.Ctx(), bandtypes.MsgFetchPriceData{OracleScriptID: 112, SourceChannel: "channel-0", AskCount: 1, MinCount: 1, FeeLimit: sdk.NewCoins(), PrepareGas: 2, ExecuteGas: 2, TwaBatchSize: uint64(n2), AcceptedHeightDiff: gap}))
+					hist = append(hist, fmt.Sprintf("h%d:window-size %d->%d", c.Header.Height, n, n2))
+					n = n2
+					for _, id := range oracleAssets {
+						rings[id] = mon.NewRing(n)
+						lastZero[id] = false
+					}
+					checkFlag, staleSince = false, -1
+					rec.Count("pipeline_window_size_changes", 1)
+				}
+			}
 			// advance to the block before the next multiple of 20
 			for (c.Header.Height+1)%20 != 0 && !panicked {
 				c.NextBlock(6e9)
